@@ -19,11 +19,11 @@ import (
 
 // rv is the reference value tree.
 type rv struct {
-	kind  byte // + - : $ *
-	text  []byte
-	n     int64
-	isNil bool
-	items []*rv
+	kind   byte // + - : $ *
+	text   []byte
+	n      int64
+	isNil  bool
+	items  []*rv
 	inline bool // produced by the inline (space separated) form: nil-ness of an empty result is not specified
 }
 
